@@ -17,6 +17,13 @@ carry an OSN are dropped without crashing."
 accepts — equivalently (`Rtp.parse_serialize`, `Rtp.serialize_parse`) `Rtp.serialize p` of a
 well-formed `p` — whose payload has at least the two OSN bytes. The model mirrors the tree after the
 two `fix:` commits (header length without 16-bit wrap-around; reads shorter than 12 bytes ignored).
+
+"Those of the primary stream" is a moving target: `TrackRemote.read` adopts the payload type of every
+primary packet it returns (`checkAndUpdateTrack`) and `receiveForRid` can bind a new SSRC. The reader
+asks the track anew for every packet, so `unwrap` takes the values current at that moment; `Rtx.step` /
+`Rtx.run` interleave repair reads, track reads, primary packets, re-binds and Stop in any order, and the
+last section proves that in every such history each unwrapped packet carries the payload type and SSRC
+the track had when it was unwrapped.
 -/
 namespace WebrtcVerif.C26
 open WebrtcVerif.Bytes WebrtcVerif.Rtp WebrtcVerif.Rtx
@@ -227,6 +234,77 @@ theorem C26_history_correct (xs : List RtxIn) (hok : ∀ x ∈ xs, x.ok) (hcap :
   simp only [original, Packet.headerLen, List.length_cons] at h3 ⊢
   omega
 
+/-! ### the primary stream's payload type and SSRC are those current when the packet is unwrapped -/
+
+/-- For ANY buffer: what `unwrap` delivers has the payload type it was given in the low seven bits of
+    byte 1 (the marker bit is the packet's own) and the SSRC it was given in bytes 8..11. -/
+theorem C26_unwrapped_carries (buf : Bs) (n : Nat) (pt : Byte) (ssrc : Nat) (pkt : Bs) (a : Attrs)
+    (h : unwrap buf n pt ssrc = .delivered pkt a) :
+    (∃ b1 : Byte, pkt[1]? = some ((b1 &&& 0x80) ||| pt) ∧ (pt.toNat < 128 → ((b1 &&& 0x80) ||| pt) &&& 0x7F = pt)) ∧
+    pkt[8]? = some (b (ssrc / 16777216)) ∧ pkt[9]? = some (b (ssrc / 65536)) ∧
+    pkt[10]? = some (b (ssrc / 256)) ∧ pkt[11]? = some (b ssrc) := by
+  obtain ⟨⟨b1, h1⟩, h8, h9, h10, h11⟩ := unwrap_stamp buf n pt ssrc pkt a h
+  exact ⟨⟨b1, h1, fun hpt => marker_pt_and7f b1 pt hpt⟩, h8, h9, h10, h11⟩
+
+/-- `checkAndUpdateTrack`: when a read of at least two bytes returns a primary packet without error,
+    the track's payload type afterwards is that packet's (low seven bits of its second byte) — whether
+    it changed or not, whatever it was before (0 = "not learnt yet" included). -/
+theorem C26_track_follows_primary (known : Byte → Bool) (cur p : Byte) (pkt : Bs) (len : Nat)
+    (h : checkAndUpdateTrack known cur pkt len = .ok p) :
+    2 ≤ len ∧ p = ((pkt.take len)[1]?).getD 0 &&& 0x7F := by
+  unfold checkAndUpdateTrack at h
+  split at h
+  · cases h
+  · refine ⟨by omega, ?_⟩
+    dsimp only at h
+    split at h
+    · split at h
+      · cases h; rfl
+      · cases h
+    · rename_i hne
+      cases h
+      simp only [bne_iff_ne, ne_eq, Decidable.not_not] at hne
+      exact hne.symm
+
+/-- In EVERY history — repair reads, track reads, primary packets, re-binds, Stop, interleaved in any
+    order — wherever a repair read `feed i` sits: if `s1` is the receiver after everything before it,
+    the packet this read queues (if any) carries `s1.pt` and `s1.ssrc`, the track's payload type and
+    SSRC at that moment, not those of the start of the history or of any earlier packet. -/
+theorem C26_history_current_pt (known : Byte → Bool) (pre post : List Ev) (i : Input) (s s' : Recv)
+    (o : List Obs) (l : List Stamp) (h : run known s (pre ++ .feed i :: post) = some (s', o, l)) :
+    ∃ s1 o1 l1 s2 l2, run known s pre = some (s1, o1, l1) ∧ step known s1 (.feed i) = some (s2, [], l2) ∧
+      (∀ st ∈ l2, st.pt = s1.pt ∧ st.ssrc = s1.ssrc ∧ st.carries ∧ st ∈ l) :=
+  run_feed_current known pre post i s s' o l h
+
+/-- …and reads neither lose, duplicate nor reorder what was queued: in every history the items waiting
+    at the start followed by the queued ones are exactly the items the reads returned followed by those
+    still waiting at the end. -/
+theorem C26_history_fifo (known : Byte → Bool) (evs : List Ev) (s s' : Recv) (o : List Obs) (l : List Stamp)
+    (h : run known s evs = some (s', o, l)) :
+    s.q ++ l.map (·.item) = rtxItems o ++ s'.q :=
+  (run_spec known evs s s' o l h).2
+
+/-- Hence every RTX packet `TrackRemote.Read` returns in a history that starts with an empty channel
+    was stamped: it carries the payload type and SSRC the track had when it was unwrapped. -/
+theorem C26_history_reads_carry_current (known : Byte → Bool) (evs : List Ev) (s s' : Recv) (o : List Obs)
+    (l : List Stamp) (hq : s.q = []) (h : run known s evs = some (s', o, l)) :
+    ∀ it ∈ rtxItems o, ∃ st ∈ l, st.item = it ∧ st.carries := by
+  obtain ⟨hc, hf⟩ := run_spec known evs s s' o l h
+  intro it hit
+  have : it ∈ l.map (·.item) := by
+    rw [hq, List.nil_append] at hf
+    rw [hf]; exact List.mem_append_left _ hit
+  obtain ⟨st, hst, rfl⟩ := List.mem_map.mp this
+  exact ⟨st, hst, rfl, hc st hst⟩
+
+/-- No history makes the reader goroutine panic, as long as every repair read stays within its pooled
+    buffer of at least 76 bytes. -/
+theorem C26_history_no_panic (known : Byte → Bool) (evs : List Ev) (s : Recv)
+    (hbuf : ∀ i, Ev.feed i ∈ evs → 76 ≤ i.buf.length ∧ i.n ≤ i.buf.length) :
+    run known s evs ≠ none := by
+  obtain ⟨r, hr⟩ := run_some known evs s hbuf
+  rw [hr]; simp
+
 /-! ### non-vacuity -/
 
 /-- RTX packet with 2 CSRCs, a one-byte-header extension of one word, OSN 0x04D2, 3 payload bytes, 4
@@ -262,6 +340,19 @@ example : ∃ buf : Bs, ∃ n pkt a, 76 ≤ buf.length ∧ n ≤ buf.length ∧ 
     { rtxPT := 97, rtxSeq := 5000, rtxSsrc := 2222 }, by decide, by decide, by decide⟩
 example : ([1, 2, 3] : Bs)[1]? = some 2 ∧ ([1, 2, 3] : Bs)[1 + 1]? = some 3 ∧ 12 + 1 + 2 ≤ 15 ∧ 15 ≤ 12 + ([1, 2, 3] : Bs).length := by
   decide
+-- a history in which the primary stream switches 96 → 98 between two retransmissions: the first
+-- unwrapped packet carries 96, the second 98 (byte 1 = marker bit | payload type)
+def sampleHistory : List Ev :=
+  [.feed { buf := serialize sample ++ List.replicate 63 7, n := 37, carried := false }, .read 1500,
+   .primary [0x80, 98, 0, 2, 0, 0, 0, 1, 0, 0, 4, 87, 1, 2, 3], .read 1500, .rebind 3333,
+   .feed { buf := serialize sample ++ List.replicate 63 7, n := 37, carried := true }, .read 1500, .read 1500]
+def sampleSummary : Option (Byte × Nat × List (Byte × Nat × Option Byte) × List Nat) :=
+  (run (fun p => p.toNat % 8 != 7) { pt := 96, ssrc := 1111, q := [], prim := [], closed := false } sampleHistory).map
+    (fun r => (r.1.pt, r.1.ssrc, r.2.2.map (fun st => (st.pt, st.ssrc, st.item.pkt[1]?)),
+      r.2.1.map (fun ob => match ob with | .rtx _ _ => 1 | .pri _ _ => 2 | .none => 0 | _ => 9)))
+example : sampleSummary
+    = some (98, 3333, [(96, 1111, some (0x80 ||| 96)), (98, 3333, some (0x80 ||| 98))], [1, 2, 1, 0]) := by rfl
+example : checkAndUpdateTrack (fun p => p.toNat % 8 != 7) 96 [0x80, 98, 0, 2] 1500 = .ok 98 := by decide
 example : (⟨sample, 0x04, 0xD2, [1, 2, 3], [], true⟩ : RtxIn).ok := ⟨(Packet.wfb_iff sample).mp (by decide), rfl⟩
 
 end WebrtcVerif.C26
